@@ -37,6 +37,11 @@ func oracleAnswer(kind string, args []string) string {
 			return "0"
 		}
 		return "1"
+	case "urlid":
+		if _, err := url.Parse(unhxs(args[0])); err != nil {
+			return "0"
+		}
+		return "1"
 	case "ip":
 		if net.ParseIP(unhxs(args[0])) == nil {
 			return "0"
